@@ -162,7 +162,7 @@ def judgeFrame (prop : String) (s : JD) (f : Bytes) (r : Option Bytes) (t : Nat)
   | "C02" => (s, Spec.judgeC02 s.cfg f r)
   | "C03" => (s, Spec.judgeC03 s.cfg f r)
   | "C04" => (s, Spec.judgeC04 r)
-  | "C05" => (s, (Spec.judgeC05arp s.cfg f r).getD (Spec.pass false))
+  | "C05" => (s, Spec.judgeC05 s.cfg f r)
   | "C06" => (s, Spec.judgeC06 s.cfg f r)
   | "C07" => let (js, v) := Spec.judgeC07 s.cfg s.js f r; ({ s with js := js }, v)
   | "C09" => let (js, v) := Spec.judgeC09 s.cfg s.js f t; ({ s with js := js }, v)
